@@ -76,7 +76,7 @@ meta["caught_by_any_check"] = bool(fired)
 dst = "/verif/seeded/%s" % sid
 os.makedirs(dst, exist_ok=True)
 for fn in ("patch.diff", "demo.c", "notes.txt"):
-    if os.path.exists(os.path.join(seed, fn)):
+    if os.path.exists(os.path.join(seed, fn)) and os.path.abspath(seed) != os.path.abspath(dst):
         shutil.copy(os.path.join(seed, fn), os.path.join(dst, fn))
 notes = open(os.path.join(seed, "notes.txt")).read() if os.path.exists(os.path.join(seed, "notes.txt")) else ""
 meta["needs_to_manifest"] = notes.strip()[:1500]
